@@ -1091,6 +1091,12 @@ class Exec(Engine):
                 av = self.term(expr, st, bound)
                 if idx is None:
                     result = av
+                elif isinstance(idx, str):
+                    # a field of the fresh result object IS an existing object
+                    o_r = st.heap[result.loc]
+                    f_r = dict(o_r.fields)
+                    f_r[idx] = av
+                    st.heap[result.loc] = HInst(o_r.cls, f_r, o_r.view)
                 else:
                     items = list(result.items)
                     items[idx] = av
